@@ -18,6 +18,7 @@ PROP = dict(
         "MM.C18.C18_finfirst_loses_data",
         "MM.C18.C18_write_refused_after_local_fin",
         "MM.C18.C18_read_after_local_fin",
+        "MM.C18.C18_race_serializable",
         "MM.C18.C18_transitions",
         "MM.C18.C18_close_targets_one",
     ],
@@ -25,7 +26,7 @@ PROP = dict(
     rule="cases = (a) every frame sequence up to length 3 (quick) / 5 (thorough) over {data, data+FIN, FIN, close, reset} x reader parked "
          "before each frame or not, with the verifhook release between queuing the payload and signalling FIN; (b) random cases over two "
          "streams mixing OpenStream/ack, hooked and plain frames, reads, CloseWrite, Close, STREAM_CLOSE, STREAM_RESET, unknown ids; "
-         "(c) the 64-chunk capacity case. Every op runs on the real stream.Manager/Stream (reader goroutine parked in Read) and on the "
+         "(c) the 64-chunk capacity case; (d) `race`: 30000 (quick) / 300000 (thorough) fresh streams with HandleRemoteFinWrite run against CloseWrite resp. Close behind a spin barrier, final state must be serialisable. Every op runs on the real stream.Manager/Stream (reader goroutine parked in Read) and on the "
          "Lean LTS; non-trivial = a reader answer (data/eof) was produced or a FIN/close/reset was processed",
     nontrivial=lambda op, out: ("data:" in out or "=eof" in out or op.startswith(("rclose", "rreset", "close"))
                                 or (op.startswith("frame") and op.split()[2] == "1")),
@@ -51,3 +52,20 @@ PROP = dict(
         technique="Lean 4 proof (invariants of a labelled transition system) + differential correspondence harness with scheduling hook",
     ),
 )
+
+
+def extra(c):
+    """When a proof/tie obligation of C18 broke (e.g. a lock-shape theorem), the Lean driver may be
+    unavailable, so the generic failing-input search cannot run. The race stress op needs no model:
+    its answer is `race-ok` exactly when every outcome was serialisable. Run it on the real code and
+    attach a concrete failing outcome to the violation when one shows up."""
+    broken = any(not o["ok"] for o in c.obligations) or c.violations
+    if not broken or not c.harness:
+        return
+    ops = ["reset", "race cw 400000", "race close 400000"]
+    outs = c.go_run("c18", ops, timeout=300)
+    bad = [o for o in outs if o.startswith("race-bad")]
+    if bad:
+        c.violate("race stress: HandleRemoteFinWrite against CloseWrite/Close left a stream in a state no serial order produces "
+                  "(state/localFin/remoteFin/CanWrite = %s)" % bad[0].split(" ")[0][len("race-bad:"):],
+                  {"engine": "c18", "origin": "props/C18.py extra(): race stress", "ops": ops, "impl_outputs": outs}, True)
